@@ -65,6 +65,16 @@ def WaitCycle (s : State) : List Nat → Prop
 /-- a set of threads that wait on each other forever -/
 def Deadlock (s : State) : Prop := ∃ ts, WaitCycle s ts
 
+/-- `u` can take a step: it is running (it can release a guard, or return), or it is blocked on a lock
+    that nobody holds (the `grant` step is enabled) -/
+def Runnable (s : State) (u : Nat) : Prop :=
+  (s u).wait = none ∨ ∃ l, (s u).wait = some l ∧ ∀ v, l ∉ (s v).held
+
+/-- reflexive-transitive closure of the wait-for relation -/
+inductive WaitsStar (s : State) : Nat → Nat → Prop where
+  | refl (t : Nat) : WaitsStar s t t
+  | step {t u v : Nat} : WaitsFor s t u → WaitsStar s u v → WaitsStar s t v
+
 /-! ### the finite check on the relation -/
 
 /-- `cur → b₁ → … → bₖ → first` in the lock graph: each acquisition asks for a lock that the next
